@@ -57,6 +57,10 @@ pub fn rerun(line: &str) -> Option<String> {
         ["wasm", hx, ops] => Some(crate::wasmops::wasm_line(
             &String::from_utf8(unhex(hx)).ok()?, &crate::wasmops::parse(ops)?)),
         ["wasmqr", hx] => Some(crate::wasmops::wasmqr_line(&String::from_utf8(unhex(hx)).ok()?)),
+        ["termx", hx, e, m, v, k, v2] => {
+            let o = crate::common::Opts { ecl: optn(e), mode: optn(m), version: optn(v), mask: optn(k) };
+            Some(crate::gen::termx_line(&unhex(hx), o, v2.parse().ok()?))
+        }
         ["reuse", a, b, ops] => Some(crate::histops::reuse_line(&unhex(a), &unhex(b), &crate::svgops::parse(ops)?)),
         ["after", a, b, e] => Some(crate::histops::after_line(&unhex(a), &unhex(b), optn(e))),
         ["hist", hx, ops] => Some(crate::histops::hist_line(&unhex(hx), &crate::histops::parse(ops)?)),
